@@ -165,22 +165,29 @@ template <template <class...> class GT, class L> void roundtrip(Reporter &R, uin
                 st = nl + 1;
             }
         }
-        if (lines.empty() || lines[0].empty() || lines[0][0] != '#') err = "written file does not start with a comment header";
-        if (err.empty() && !content.empty() && content.back() != '\n') err = "written file does not end with a newline";
+        // The statement fixes what the loader accepts, not what the writer emits; the written file is read here with the
+        // documented grammar only (comment lines anywhere, runs of blanks / tabs around the two vertex tokens, the rest of the
+        // line is the label, final newline optional) and must hold the graph's edges, each once
         std::multiset<std::string> want, got;
         for (auto &kv : labels) {
             std::string t = Codec<L>::enc(kv.second);
             want.insert(std::to_string(kv.first.first) + " " + std::to_string(kv.first.second) + (LT<L>::labelled ? " " + t : ""));
         }
-        for (size_t i = 1; i < lines.size() && err.empty(); ++i) {
-            ++C.linesParsedIndependently;
+        for (size_t i = 0; i < lines.size() && err.empty(); ++i) {
             const std::string &ln = lines[i];
-            size_t p1 = ln.find(' ');
-            if (p1 == std::string::npos) { err = "written line '" + ln + "' is not 'src dst[ label]'"; break; }
-            size_t p2 = ln.find(' ', p1 + 1);
-            std::string a = ln.substr(0, p1), b = p2 == std::string::npos ? ln.substr(p1 + 1) : ln.substr(p1 + 1, p2 - p1 - 1);
-            std::string rest = p2 == std::string::npos ? "" : ln.substr(p2 + 1);
-            if (a.empty() || b.empty() || a.find_first_not_of("0123456789") != std::string::npos || b.find_first_not_of("0123456789") != std::string::npos) {
+            if (!ln.empty() && ln[0] == '#') continue;
+            if (ln.empty() && i + 1 == lines.size()) continue;
+            ++C.linesParsedIndependently;
+            const char *bl = " \t";
+            size_t p1 = ln.find_first_not_of(bl);
+            size_t p2 = p1 == std::string::npos ? p1 : ln.find_first_of(bl, p1);
+            size_t p3 = p2 == std::string::npos ? p2 : ln.find_first_not_of(bl, p2);
+            if (p1 == std::string::npos || p2 == std::string::npos || p3 == std::string::npos) { err = "written line '" + ln + "' does not hold two vertex tokens"; break; }
+            size_t p4 = ln.find_first_of(bl, p3);
+            size_t p5 = p4 == std::string::npos ? p4 : ln.find_first_not_of(bl, p4);
+            std::string a = ln.substr(p1, p2 - p1), b = ln.substr(p3, p4 == std::string::npos ? std::string::npos : p4 - p3);
+            std::string rest = p5 == std::string::npos ? "" : ln.substr(p5);
+            if (a.find_first_not_of("0123456789") != std::string::npos || b.find_first_not_of("0123456789") != std::string::npos) {
                 err = "written line '" + ln + "' does not start with two vertex indices";
                 break;
             }
